@@ -153,6 +153,10 @@ func c12Main(specBytes []byte) {
 				x.longIdle()
 			case "copen":
 				x.concurrentOpens()
+			case "deadrun":
+				x.deadRun()
+			case "oddver":
+				x.oddVersion()
 			}
 			x.res.Ms = time.Since(t0).Milliseconds()
 			Emit(x.res)
@@ -1818,4 +1822,112 @@ func (x *c12Exec) concurrentOpens() {
 		x.violate("C12:backend-not-closed", fmt.Sprintf("%d overlapping opens, every returned session closed: %d backend websocket(s) still open 10s later", n, left))
 	}
 	x.probe(fmt.Sprintf("%d overlapping opens", n))
+}
+
+// ------------------------------------------------------------ run of data calls on a dead session
+
+// deadRun: the backend closes first (gracefully or abruptly); once the agent
+// has noticed, and before any poll removes the session, the client makes a
+// run of data calls on it. From the first 400 on, the session is known to be
+// closed and every further data call has to be refused as well.
+func (x *c12Exec) deadRun() {
+	s, _ := x.open()
+	if s == nil {
+		x.res.Skipped++
+		return
+	}
+	if x.c.Rep%2 == 0 {
+		s.bc.closeNow()
+		s.bc.settled(0)
+	} else {
+		s.bc.closeAbruptly()
+		time.Sleep(20 * time.Millisecond)
+	}
+	s.state = c12BClosed
+	refusedAt := -1
+	var seq []string
+	for i := 0; i < 50; i++ {
+		a := x.call("data", fmt.Sprintf("data call %d of a run on session %s whose backend closed first", i+1, s.id), "", nil, c12DataBody(s.id, fmt.Sprintf("into the void %d", i)))
+		if !a.Answered {
+			return
+		}
+		seq = append(seq, fmt.Sprint(a.Status))
+		if a.Status == 400 && refusedAt < 0 {
+			refusedAt = i
+		}
+		if refusedAt >= 0 && a.Status == 200 {
+			x.violate("C12:closed-session-accepted:data-after-refusal", fmt.Sprintf("session %s: the backend closed first; data call %d was refused with 400, data call %d on the same session was answered 200 (answers so far: %s)", s.id, refusedAt+1, i+1, strings.Join(seq, " ")))
+			break
+		}
+	}
+	x.res.Statuses = fmt.Sprintf("first-refusal-at=%d", refusedAt+1)
+	x.step(c12Step{Op: "data-run", Target: s.id, Note: strings.Join(seq, " ")})
+	s.tainted = true
+	x.drain(s, nil)
+	if s.state == c12Closed {
+		x.rejects(s, "a poll answered 400")
+	}
+	x.b.forget(s.token)
+	x.probe("run of data calls on a session whose backend closed first")
+}
+
+// ------------------------------------------------------------ odd protocol versions
+
+// oddVersion: the open carries an unusual X-Websocket-Shim-Version (Label);
+// then binary traffic flows both ways. Nothing may panic, every call is
+// answered, and the binary message the backend sent comes out of the poll
+// intact under one of the two encodings the protocol knows (which one such a
+// session gets is not prescribed).
+func (x *c12Exec) oddVersion() {
+	x.nTok++
+	token := fmt.Sprintf("%s-%d", x.c.ID, x.nTok)
+	a := x.call("open", fmt.Sprintf("open(X-Websocket-Shim-Version: %q)", x.c.Label), "", [][2]string{{"X-Verif-Conn", token}, {"X-Websocket-Shim-Version", x.c.Label}}, []byte("/ws/odd-version"))
+	var r shimOpenResp
+	if !a.Answered || a.Status != 200 || json.Unmarshal(a.Body, &r) != nil || r.ID == "" {
+		x.res.Statuses = fmt.Sprintf("open=%d", a.Status)
+		x.probe("open with version " + x.c.Label)
+		return
+	}
+	bc := x.b.conn(token)
+	if bc == nil {
+		x.res.Skipped++
+		return
+	}
+	s := &c12Sess{id: r.ID, token: token, bc: bc}
+	payload := []byte("binary but printable \"<&>\" 0123456789") // survives both encodings
+	bc.send(shimMsg{websocket.BinaryMessage, payload})
+	bc.send(shimMsg{websocket.TextMessage, []byte("text rides along")})
+	got := 0
+	for n := 0; n < 3 && got < 2; n++ {
+		p := x.call("poll", fmt.Sprintf("poll(session opened with version %q, a binary message pending)", x.c.Label), "", nil, shimIDBody(s.id))
+		if !p.Answered || p.Status != 200 {
+			break
+		}
+		var raw []json.RawMessage
+		if json.Unmarshal(p.Body, &raw) != nil {
+			x.violate("C12:poll-reply-undecodable", fmt.Sprintf("version %q: %s", x.c.Label, shimTrunc(string(p.Body), 100)))
+			break
+		}
+		for _, e := range raw {
+			got++
+			var arr []string
+			if json.Unmarshal(e, &arr) == nil && len(arr) == 1 {
+				dec, err := base64.StdEncoding.DecodeString(arr[0])
+				if arr[0] != string(payload) && (err != nil || string(dec) != string(payload)) {
+					x.violate("C12:odd-version:binary-garbled", fmt.Sprintf("session opened with version %q: the backend's binary message %q came out of the poll as %s, which is it under neither encoding", x.c.Label, payload, shimTrunc(string(e), 100)))
+				}
+			}
+		}
+	}
+	d := x.call("data", fmt.Sprintf("data(session opened with version %q, binary payload)", x.c.Label), "", nil, c12DataBody(s.id, []string{base64.StdEncoding.EncodeToString(payload)}))
+	if d.Answered && d.Status == 200 {
+		bc.waitRecv(func(r []shimMsg) bool { return len(r) >= 1 }, 5*time.Second)
+	}
+	x.res.Statuses = fmt.Sprintf("open=200 v=%d polled=%d data=%d", r.V, got, d.Status)
+	c := x.call("close", "close(session opened with an odd version)", "", nil, shimIDBody(s.id))
+	if c.Answered && c.Status == 200 {
+		x.checkBackendClosed(s, "odd version")
+	}
+	x.b.forget(token)
+	x.probe("session with version " + x.c.Label)
 }
